@@ -23,7 +23,7 @@ DEFAULT_PROFILE = dict(
     w_text=4, w_out=3, w_if=1, w_for=1, w_with=1, w_elem=1, w_slot=4, w_comp=4, w_provide=0,
     w_inject=0, p_only=0.1, p_dyn=0.0, p_named_fill=0.5, p_dynamic_fill_name=0.15, p_fill_in_ctl=0.3,
     p_default_flag=0.25, p_required=0.05, p_data_alias=0.3, p_default_alias=0.15, p_slot_in_fill=0.2,
-    p_selfid=0.0, p_is_filled=0.2, p_malformed=0.04, p_forloop_print=0.2, collide=0.3,
+    p_selfid=0.0, p_fill_double_bind=0.3, p_is_filled=0.2, p_malformed=0.04, p_forloop_print=0.2, collide=0.3,
 )
 
 
@@ -251,6 +251,13 @@ class Gen:
                         f = {"t": "fill", "name": lit(nm), "data": data, "dflt": default,
                              "body": self.body(depth, scope + [(x, "str")], dict(fst, in_for=True))}
                         out.append({"t": "for", "x": x, "e": var(r.choice(LISTS + ["one"])), "body": [f]})
+                if r.random() < p["p_fill_double_bind"]:
+                    # a second binding layer between the component tag and the fill; mostly of the *same* name, so that the
+                    # order in which the layers are merged into the fill's captured variables is observable (seeded/C03-3)
+                    self.feat("fill_in_nested_binding")
+                    inner = out[-1]
+                    x2 = inner["x"] if inner["t"] == "with" and r.random() < 0.7 else self.bindname()
+                    out[-1] = {"t": "with", "x": x2, "e": self.expr(scope), "body": [inner]}
             else:
                 out.append({"t": "fill", "name": lit(nm), "data": data, "dflt": default, "body": self.body(depth, scope, fst)})
         return out
